@@ -116,6 +116,71 @@ theorem C03_main_plan_dests_distinct (env : Env) (o : Opts) (p : Plan) (dir : By
   obtain ⟨ty, _, rfl⟩ := hy
   exact C03_main_distinct_dest_partial env dir tx ty hd hne hg
 
+/-- Without `-o` every planned report is written to standard output (html: the writer's `./html`),
+however many types were requested: `plan` accepts `-t lcov,covdir` without `-o`. -/
+theorem C03_main_stdout_all (env : Env) (o : Opts) (p : Plan) (h : plan env o = .ok p)
+    (hp : o.rest.outputPath = none) : ∀ x ∈ p.outputs, x.dest = none := by
+  obtain ⟨sr, ms, ob, _, _, _, hob, rfl⟩ := plan_ok h
+  have hob' := outBase_ok hob
+  rw [hp] at hob'; subst hob'
+  intro x hx
+  simp only [mkPlan, List.mem_map] at hx
+  obtain ⟨t, _, rfl⟩ := hx
+  rfl
+
+/-- Full statement for every accepted run: two reports of different types (the cobertura pair
+aside) are written to different places, so each can be read back on its own. -/
+def C03_main_one_place_per_report_stmt : Prop :=
+  ∀ (env : Env) (o : Opts) (p : Plan), plan env o = .ok p → ∀ x ∈ p.outputs, ∀ y ∈ p.outputs,
+    x.ty ≠ y.ty → ¬ (isCoberturaKind x.ty = true ∧ isCoberturaKind y.ty = true) → x.dest ≠ y.dest
+
+/-- False of the code: `grcov in.info -t lcov,covdir` (no `-o`) is accepted and writes the two
+reports back to back (likewise two JSON documents for `-t coveralls+,covdir`) to standard output – no reader can take the stream for either report.
+(second review, item 36; finding C03-main-several-types-one-stdout; with `-o <dir>` it holds:
+`C03_main_plan_dests_distinct`.) -/
+theorem C03_main_one_place_per_report_false : ¬ C03_main_one_place_per_report_stmt := by
+  intro h
+  let env : Env := { cpus := 1, canon := fun _ => none, isDir := fun _ => false, mappingReadable := fun _ => true }
+  let o : Opts := { outputTypes := [.lcov, .covdir], sortOutputTypes := [], filter := none, precision := 2,
+                    vcsBranch := [], log := [45], logLevel := .error, rest := { paths := [[105]] } }
+  have hok : (plan env o).toBool = true := by decide
+  cases hp : plan env o with
+  | error e => rw [hp] at hok; cases hok
+  | ok p =>
+    have hall := C03_main_stdout_all env o p hp rfl
+    obtain ⟨sr, ms, ob, _, _, _, _, rfl⟩ := plan_ok hp
+    have hx : outputOf env o sr (threadsOf env o) ob .lcov ∈ (mkPlan env o sr ms ob).outputs := by
+      simp [mkPlan, o]
+    have hy : outputOf env o sr (threadsOf env o) ob .covdir ∈ (mkPlan env o sr ms ob).outputs := by
+      simp [mkPlan, o]
+    exact h env o _ hp _ hx _ hy (by simp [outputOf]) (by simp [outputOf, isCoberturaKind])
+      ((hall _ hx).trans (hall _ hy).symm)
+
+/-- … and true under exactly the guard the witness violates: an output path is given (then it is
+a directory, or the run panics before any report), or only one type is requested. -/
+theorem C03_main_one_place_per_report_partial (env : Env) (o : Opts) (p : Plan)
+    (h : plan env o = .ok p) (g : o.rest.outputPath ≠ none ∨ o.outputTypes.length = 1)
+    (x y : Output) (hx : x ∈ p.outputs) (hy : y ∈ p.outputs) (hne : x.ty ≠ y.ty)
+    (hg : ¬ (isCoberturaKind x.ty = true ∧ isCoberturaKind y.ty = true)) : x.dest ≠ y.dest := by
+  by_cases hlen : o.outputTypes.length = 1
+  · -- one type: x and y are the same planned report
+    exfalso
+    obtain ⟨sr, ms, ob, _, _, _, _, rfl⟩ := plan_ok h
+    simp only [mkPlan, List.mem_map] at hx hy
+    obtain ⟨tx, htx, rfl⟩ := hx
+    obtain ⟨ty, hty, rfl⟩ := hy
+    match hl : o.outputTypes, hlen with
+    | [t], _ =>
+      rw [hl] at htx hty
+      simp only [List.mem_singleton] at htx hty
+      subst htx; subst hty
+      exact hne rfl
+  · rcases g with g | g
+    · cases hop : o.rest.outputPath with
+      | none => exact absurd hop g
+      | some dir => exact C03_main_plan_dests_distinct env o p dir h hlen hop x y hx hy hne hg
+    · exact absurd g hlen
+
 /-- The html report is a sub-directory `<dir>/html`; no other report file lies inside it (each is
 a direct child of `<dir>` whose name differs from `html`). -/
 theorem C03_main_html_dir_disjoint (t : OutputType) (ht : t ≠ .html) :
